@@ -102,3 +102,57 @@ def extra(ctx, rep):
     if h is not None and any(isinstance(c, ast.Call) and call_name(c) == "str" and "hyperparameters" in norm(c) for c in ast.walk(h.node)):
         rep.unknown("R-C05-strhash", "pennylane/core/operator/base.py:Operator.__hash__ str(self.hyperparameters.values())",
                     "hyperparameters are stringified as a whole; an array-valued hyperparameter with more than 1000 elements would be elided too")
+
+
+# ------------------------------------------------------------------------------------------------------------------
+UNORDERED = {"frozenset", "set", "sorted"}
+WIRE_ATTRS = {"wires", "raw_wires", "_wires", "control_wires", "target_wires"}
+
+
+def order_and_stale(ctx, rep):
+    """R-C05-order: wires enter measurement / operator hashes in their own order.  probs(wires=[0, 1]) and probs(wires=[1, 0])
+    (likewise sample, counts, state-like reductions, mutual_info) return differently arranged results, so a hash that
+    forgets the order makes the two share one cache entry.
+    R-C05-stale: a memoised `hash` of a QuantumScript reaches a copy only when nothing that enters the fingerprint is replaced."""
+    ix = ctx.index
+    rep.rule("R-C05-order", "in every __hash__ of a MeasurementProcess / Operator class the wires reach the fingerprint order-preserving: "
+             "never through set(), frozenset() or sorted() (results of probs/sample/counts/density_matrix/mutual_info are arranged by wire order)")
+    n = 0
+    for c in ix.classes:
+        rel = c.module.relpath
+        if not rel.startswith("pennylane/") or "/tests/" in rel or "/labs/" in rel:
+            continue
+        h = c.own_method("__hash__")
+        if h is None:
+            continue
+        names = {b.name for b in c.mro()}
+        if not names & {"MeasurementProcess", "Operator", "Operator2"}:
+            continue
+        reads_wires = [x for x in ast.walk(h.node) if isinstance(x, ast.Attribute) and x.attr in WIRE_ATTRS]
+        if not reads_wires:
+            continue
+        n += 1
+        rep.analysed(rel, h.qualname)
+        bad = None
+        for call in ast.walk(h.node):
+            if isinstance(call, ast.Call) and call_name(call) in UNORDERED and call.args:
+                if any(isinstance(x, ast.Attribute) and x.attr in WIRE_ATTRS for x in ast.walk(call.args[0])):
+                    bad = call
+        if bad is not None:
+            rep.refuted("R-C05-order", rel, h.qualname, bad,
+                        f"`{norm(bad)[:70]}` drops the order of the wires from the hash: measurements that differ only in wire order "
+                        "(probs(wires=[0, 1]) / probs(wires=[1, 0])) get the same tape hash, and the cached result of one is returned for the other",
+                        line=bad.lineno)
+        else:
+            rep.proved("R-C05-order", f"{rel}:{h.qualname}", "wires enter the fingerprint in their own order")
+    rep.floor("__hash__ implementations reading wires", n, 4)
+
+    rep.rule("R-C05-stale", "QuantumScript.copy(**update) carries a memoised `hash` to the new script only under a guard that excludes an update of "
+             "every constructor input the fingerprint reads (operations, measurements, shots, trainable_params); "
+             "`not update.get(key)` is not such a guard (an update to an empty value passes it)")
+    from .c40_extra import cache_part
+
+    k = cache_part(ix, rep, rule="R-C05-stale", slots={"hash"}, floor=0)
+    if not k:
+        rep.proved("R-C05-stale", "pennylane/core/qscript.py:QuantumScript.copy", "the memoised hash is never carried to a copy: every copy recomputes it",
+                   nontrivial=False)
